@@ -124,7 +124,6 @@ func genCompileZoo(seed uint64) czWorld {
 	for _, it := range ifaces {
 		fmt.Fprintf(&sb, "import %s from 0x%x\n", it.name, it.addr)
 	}
-	fmt.Fprintf(&sb, "import %s from 0x%x\n", leaves[0].name, leaves[0].addr)
 	sb.WriteString("access(all) contract Impl {\n    access(all) entitlement Go\n")
 	var confS, confR []string
 	for _, it := range ifaces {
@@ -135,9 +134,7 @@ func genCompileZoo(seed uint64) czWorld {
 	fmt.Fprintf(&sb, "    access(all) resource R: %s {\n        access(all) var n: Int\n        init() { self.n = 0 }\n        access(all) fun work(_ x: Int): Int { self.n = self.n + x; return self.n }\n        access(Go) fun secret(): Int { return 42 }\n    }\n", strings.Join(confR, ", "))
 	sb.WriteString("    access(all) attachment Tag for R {\n        access(all) let label: String\n        init(_ l: String) { self.label = l }\n        access(all) fun both(): String { return self.label.concat(base.n.toString()) }\n    }\n")
 	sb.WriteString("    access(all) fun mk(): @R { return <- create R() }\n")
-	// the same intersection and the same entitlement set are written in one order here and in the other order in the transaction
 	l0 := leaves[0]
-	fmt.Fprintf(&sb, "    access(all) fun orders(): [Type] {\n        let v: {%s.IA, %s.IB} = %s.Both()\n        let p = %s.P(1)\n        let r = &p as auth(%s.EA, %s.EB) &%s.P\n        return [v.getType(), r.getType(), Type<{%s.IA, %s.IB}>(), Type<auth(%s.EA, %s.EB) &%s.P>()]\n    }\n", l0.name, l0.name, l0.name, l0.name, l0.name, l0.name, l0.name, l0.name, l0.name, l0.name, l0.name, l0.name)
 	nfun := 2 + r.Intn(5)
 	for f := 0; f < nfun; f++ {
 		switch r.Intn(5) {
@@ -155,9 +152,15 @@ func genCompileZoo(seed uint64) czWorld {
 	}
 	sb.WriteString("    init() {}\n}\n")
 	w.Contracts = append(w.Contracts, czContract{"Impl", 0x12, sb.String()})
+	// the same intersection and the same entitlement set are written in one order in this contract and in the other order in the
+	// transaction (Impl itself imports only the interface contracts, so that the leaves stay transitive imports there)
+	var ob strings.Builder
+	fmt.Fprintf(&ob, "import %s from 0x%x\naccess(all) contract Ord {\n", l0.name, l0.addr)
+	fmt.Fprintf(&ob, "    access(all) fun orders(): [Type] {\n        let v: {%s.IA, %s.IB} = %s.Both()\n        let p = %s.P(1)\n        let r = &p as auth(%s.EA, %s.EB) &%s.P\n        return [v.getType(), r.getType(), Type<{%s.IA, %s.IB}>(), Type<auth(%s.EA, %s.EB) &%s.P>()]\n    }\n    init() {}\n}\n", l0.name, l0.name, l0.name, l0.name, l0.name, l0.name, l0.name, l0.name, l0.name, l0.name, l0.name, l0.name)
+	w.Contracts = append(w.Contracts, czContract{"Ord", 0x12, ob.String()})
 	// transaction and script using everything
 	var tx strings.Builder
-	tx.WriteString("import Impl from 0x12\n")
+	tx.WriteString("import Impl from 0x12\nimport Ord from 0x12\n")
 	for _, l := range leaves {
 		if r.Chance(0.6) {
 			fmt.Fprintf(&tx, "import %s from 0x%x\n", l.name, l.addr)
@@ -167,7 +170,7 @@ func genCompileZoo(seed uint64) czWorld {
 	if !strings.Contains(tx.String(), "import "+l0.name+" from") {
 		fmt.Fprintf(&tx, "import %s from 0x%x\n", l0.name, l0.addr)
 	}
-	body := fmt.Sprintf("        let rev: {%s.IB, %s.IA} = %s.Both()\n        let pp = %s.P(2)\n        let rr = &pp as auth(%s.EB, %s.EA) &%s.P\n        log(rev.getType().identifier)\n        log(rr.getType().identifier)\n        log(Type<{%s.IB, %s.IA}>().identifier)\n        log(Impl.orders().length)\n", l0.name, l0.name, l0.name, l0.name, l0.name, l0.name, l0.name, l0.name, l0.name)
+	body := fmt.Sprintf("        let rev: {%s.IB, %s.IA} = %s.Both()\n        let pp = %s.P(2)\n        let rr = &pp as auth(%s.EB, %s.EA) &%s.P\n        log(rev.getType().identifier)\n        log(rr.getType().identifier)\n        log(Type<{%s.IB, %s.IA}>().identifier)\n        log(Ord.orders().length)\n", l0.name, l0.name, l0.name, l0.name, l0.name, l0.name, l0.name, l0.name, l0.name)
 	body += "        let s = Impl.S()\n        log(s.run(3))\n        log(s.dflt0())\n        let r <- Impl.mk()\n        log(r.work(5))\n        destroy r\n"
 	for f := 0; f < nfun; f++ {
 		body += fmt.Sprintf("        log(Impl.g%d(%d))\n", f, 3+f)
